@@ -223,7 +223,9 @@ def set_rules(cx):
         got = sorted((show(cx.arg(s, 0)), show(cx.arg(s, 1)), show(cx.arg(s, 2))) for s in b.calls('Unit::from_euler_angles'))
         want = sorted([('(param rx)', '0.0', '0.0'), ('0.0', '(param ry)', '0.0'), ('0.0', '0.0', '(param rz)')])
         lits = b.aggregates('geom3::align3::rotations::RotationMatrices')
-        okr = len(lits) == 1 and match('(call *Euler::new (param rx) (param ry) (param rz))', dict(cx.aggval(lits[0])[2:]).get('r')) is not None
+        rfld = dict(cx.aggval(lits[0])[2:]).get('r') if len(lits) == 1 else None
+        okr = rfld is not None and (match('(call *Euler::new (param rx) (param ry) (param rz))', rfld) is not None or
+                                    match('(agg *Euler (x (param rx)) (y (param ry)) (z (param rz)))', rfld) is not None)      # through the constructor or as a struct literal
         cx.ob('EXPR', 'RotationMatrices::from_euler:elementary', got == want and okr,
               'the three elementary rotations are built from the angles AS GIVEN (no wrapping into a principal range: wrapping the pitch with period pi is not the same rotation), and r records those angles',
               where=b.file, found=str(got))
